@@ -307,3 +307,9 @@ Lemma FactoryBasics_get_lookup_false r n : get_lookup r n false =
   match (match alookup n (L1 r) with Some v => Some v | None => alookup n (L2 r) end) with
   | Some v => Hit v | None => Miss end.
 Proof. unfold get_lookup. destruct (alookup n (L1 r)); [reflexivity|]. destruct (alookup n (L2 r)); reflexivity. Qed.
+
+Lemma field_of_write_other st h k vs h' k' : h' <> h -> field_of (write_field st h k vs) h' k' = field_of st h' k'.
+Proof.
+  intros Hne. unfold field_of, write_field. cbn [flds klookup]. unfold key_eqb. cbn [fst snd].
+  destruct (Nat.eqb_spec h h'); [subst; contradiction|]. reflexivity.
+Qed.
